@@ -317,6 +317,11 @@ pub fn float_pixel(seed: u64, mode: u64, i: u64) -> [u32; 3] {
         let r = mix(seed, i * 3 + c as u64);
         let unit = (r >> 40) as f32 / (1u64 << 24) as f32; // [0,1)
         let v: f32 = match mode {
+            4 => {
+                // any bit pattern at all
+                *o = (r >> 16) as u32;
+                continue;
+            }
             0 => {
                 // unit cube; a quarter of the samples on the 10-bit grid including 0 and 1
                 if r & 3 == 0 {
